@@ -27,6 +27,10 @@ func verifEvtKV(kind string, key string, a, b int64) {
 func verifEvtSet(kind string, set *produceSet, a int) {
 	if s := VerifSink; s != nil {
 		set.eachPartition(func(topic string, partition int32, pSet *partitionSet) {
+			if rb := pSet.recordsToSend.RecordBatch; rb != nil && len(pSet.msgs) > 0 {
+				// the stamp the batch will carry on the wire: (producer epoch, first sequence)
+				s(kind+".stamp", pSet.msgs[0], int(rb.ProducerEpoch), int(rb.FirstSequence))
+			}
 			for i, m := range pSet.msgs {
 				s(kind, m, a, i)
 			}
